@@ -92,8 +92,8 @@ var c01Exh = map[string][]exhSpace{
 }
 
 var c01Counts = map[string][3]int{ // sampled-exhaustive stride handled separately; tt, big
-	"quick":    {0, 60_000, 400},
-	"thorough": {0, 1_500_000, 12_000},
+	"quick":    {0, 60_000, 800},
+	"thorough": {0, 1_500_000, 20_000},
 }
 
 func c01ExhTotal(tier string) int {
@@ -129,6 +129,9 @@ func c01Gen(r *gen.Rng, tier string, idx int) interface{} {
 	}
 	c.Mode = "big"
 	c.N = r.Range(30, 70)
+	if r.Chance(1, 3) { // harder: hundreds to thousands of conflicts, several restarts
+		c.N = r.Range(70, 110)
+	}
 	if r.Chance(1, 6) {
 		p := r.Range(4, 6)
 		c.CNF, c.N = gen.Pigeonhole(p+1, p)
@@ -182,7 +185,7 @@ func c01Build(c *C01Case, front string, cnf [][]int, n int, rec *Rec, scen strin
 // c01Solve runs one front-end/configuration and judges the answer. It returns the status.
 func c01Solve(c *C01Case, front string, cnf [][]int, n int, cert bool, limit int, expSat, known bool, rec *Rec) (st solver.Status, ok bool) {
 	scen := fmt.Sprintf("%s+Solve/cert=%v/limit=%d", front, cert, limit)
-	SetLearnedLimit(limit, limit > 0 && limit <= 5)
+	SetLearnedLimit(limit, limit > 0) // sticky: reduction recurs every `limit` conflicts
 	pb, declared := c01Build(c, front, cnf, n, rec, scen)
 	if pb == nil {
 		return 0, false
